@@ -221,11 +221,33 @@ def is_precondition_assert(exc):
     return len(fr) == 1
 
 
+_GUARDS = {}
+
+
+def _get_guard(mod):
+    """checks opt in with  GUARD = ['numqi.sim.state', ...]  (and optionally GUARD_EXCLUDE = ['numqi.x.f', ...])"""
+    prefixes = getattr(mod, 'GUARD', None)
+    if not prefixes:
+        return None
+    key = mod.__name__
+    if key not in _GUARDS:
+        from mc import seams
+        import numqi  # noqa
+        _GUARDS[key] = seams.ImmutabilityGuard(prefixes, getattr(mod, 'GUARD_EXCLUDE', ())).install()
+    return _GUARDS[key]
+
+
 def _execute_case(mod, case, env):
     out = Out()
     t0 = time.time()
     try:
+        guard = _get_guard(mod)
+        if guard is not None:
+            guard.drain()
         mod.run_case(case, out, env)
+        if guard is not None:
+            for qual, idx in guard.drain():
+                out.violation('immutability/%s/argument_modified' % qual, '%s modified its argument %s in place' % (qual, idx))
     except Exception as e:  # safety net: crash inside numqi == violation; crash in harness == harness error
         site = exc_site(e)
         tb = traceback.format_exc()
